@@ -112,6 +112,13 @@ CYCLES = {
   (def [s port] (free-port-listener))
   (ev/close s)
   (try (do (def c (net/connect "127.0.0.1" (string port))) (ev/close c)) ([e] nil))'''),
+    "connect-fail-then-reuse-fd": ("cheap", r'''
+  (try (net/connect :unix "/tmp/c20-no-such-socket") ([e] nil))
+  (def [r w] (os/pipe))      # usually gets the descriptor number the failed connection had
+  (gccollect)                # the dead connection's stream is finalised: it must not close a descriptor it no longer owns
+  (ev/write w "x")
+  (assert (deep= @"x" (ev/read r 1)) "pipe broken")
+  (ev/close r) (ev/close w)'''),
     "tcp-bad-address": ("cheap", r'''
   (try (net/connect "256.256.256.256.invalid" "80") ([e] nil))
   (try (net/listen "127.0.0.1" "not-a-port") ([e] nil))'''),
